@@ -57,7 +57,7 @@ theorem gourdon_params_wide_eq_narrow (x : ℕ) (threads : ℤ) (ay az : ℚ) (f
 
 /-! ## x⋆ -/
 
-/-- `get_x_star_gourdon(x, y)` (util.cpp 412-436) for `1 ≤ y < 2^63`, `x < 2^125` and `⌈x/y²⌉` representable (x < 64 or
+/-- `get_x_star_gourdon(x, y)` (util.cpp 421-445) for `1 ≤ y < 2^63`, `x < 2^125` and `⌈x/y²⌉` representable (x < 64 or
     x < y³; the callers have x^(1/3) < y): no intermediate overflows and `1 ≤ x⋆ ≤ y`, `x⋆ ≤ max(1, √(x/y))`; when moreover
     `y² ≤ x < y³`: `x^(1/4) ≤ x⋆ ≤ √(x/y)`, `x < (x⋆+1)^4`, `x < (x⋆+1)·y²` — the bounds Σ0..Σ6, A, C, D rely on. -/
 theorem xstar_range (x y : ℕ) (hy1 : 1 ≤ y) (hy : (y : ℤ) ≤ i64Max) (hx : x < 2 ^ 125) (hxy : x < 64 ∨ x < y ^ 3) :
